@@ -1,10 +1,12 @@
 /-
-  C05: batch authorization — `x/exp/batch/batch.go`, mirrored INCLUDING `cloneSub`'s defect.
+  C05: batch authorization — `x/exp/batch/batch.go`.
 
-  * `cloneSub k v r`   : substitution of ONE variable inside a value, as the code does it.  In a record only the
-                         FIRST field (in iteration order; here: the order of the key-sorted list, Go: map order)
-                         whose value changes is replaced (`delta && newMap == nil`).
-  * `Value.subst k v r`: full substitution (every occurrence) — what the property demands.
+  * `cloneSub k v r`   : substitution of ONE variable inside a value, as the code does it: entities are compared with
+                         the marker, every record field whose value changes is replaced in a clone of the map, a set
+                         with a changed member is rebuilt with `types.NewSet`.  (Before the repair of
+                         `clonesub-second-occurrence` only the first changed field of a record was replaced.)
+  * `Value.subst k v r`: full substitution (every occurrence) — what the property demands; `cloneSub` equals it
+                         (`C05_cloneSub_is_subst`).
   * `doBatch`          : the recursive enumeration: at each level partially evaluate all policies against the
                          current environment (`doPartial`), replace ignore markers at the last level
                          (`fixIgnores`), loop over the level's value list substituting with `cloneSub`, recurse;
@@ -24,8 +26,8 @@ def cloneSub (k : String) (v : Value) : Value → Value × Bool
   | .entity ty id => if ty == variableEntityType && id == k then (v, true) else (.entity ty id, false)
   | .record kvs =>
     match cloneSubKVs k v kvs with
-    | some kvs' => (.record kvs', true)
-    | none => (.record kvs, false)
+    | (kvs', true) => (.record kvs', true)
+    | (_, false) => (.record kvs, false)
   | .set xs => if cloneSubAny k v xs then (mkSet (cloneSubMap k v xs), true) else (.set xs, false)
   | .bool b => (.bool b, false)
   | .long n => (.long n, false)
@@ -34,13 +36,12 @@ def cloneSub (k : String) (v : Value) : Value → Value × Bool
   | .datetime n => (.datetime n, false)
   | .duration n => (.duration n, false)
   | .ip a => (.ip a, false)
-/-- the record loop: the first field with a delta is replaced, later fields are left alone (the defect) -/
-def cloneSubKVs (k : String) (v : Value) : List (String × Value) → Option (List (String × Value))
-  | [] => none
+/-- the record loop: EVERY field with a delta is replaced in the cloned map (`newMap[kk] = vv`); the flag says
+    whether any field changed (`newMap != nil`).  The keys are unchanged, so the key-sorted list stays sorted. -/
+def cloneSubKVs (k : String) (v : Value) : List (String × Value) → List (String × Value) × Bool
+  | [] => ([], false)
   | (kk, vv) :: rest =>
-    match cloneSub k v vv with
-    | (vv', true) => some ((kk, vv') :: rest)
-    | (_, false) => (cloneSubKVs k v rest).map ((kk, vv) :: ·)
+    ((kk, (cloneSub k v vv).1) :: (cloneSubKVs k v rest).1, (cloneSub k v vv).2 || (cloneSubKVs k v rest).2)
 def cloneSubAny (k : String) (v : Value) : List Value → Bool
   | [] => false
   | x :: xs => (cloneSub k v x).2 || cloneSubAny k v xs
@@ -83,23 +84,6 @@ def Value.substKVs (k : String) (v : Value) : List (String × Value) → List (S
 def Value.substList (k : String) (v : Value) : List Value → List Value
   | [] => []
   | x :: xs => Value.subst k v x :: Value.substList k v xs
-end
-
-mutual
-/-- every record inside the value has at most one field bearing the variable `k`:
-    the domain on which `cloneSub` is full substitution -/
-def Value.oneBearing (k : String) : Value → Bool
-  | .record kvs => Value.oneBearingKVs k kvs
-  | .set xs => Value.oneBearingList k xs
-  | _ => true
-/-- fields are individually fine, and once a field bears `k` no later field does -/
-def Value.oneBearingKVs (k : String) : List (String × Value) → Bool
-  | [] => true
-  | (_, x) :: rest =>
-    Value.oneBearing k x && Value.oneBearingKVs k rest && (!Value.hasVar k x || !Value.hasVarKVs k rest)
-def Value.oneBearingList (k : String) : List Value → Bool
-  | [] => true
-  | x :: xs => Value.oneBearing k x && Value.oneBearingList k xs
 end
 
 /-! ## the enumeration -/
